@@ -56,6 +56,9 @@ class Contract:
     # bounded native domain: dict(alphabet=[...], max_len=3, max_len_thorough=4, ints=[...]) or a
     # callable(tier) yielding input dicts
     domain: Any = None
+    # assumed contracts on calls the verifier does not look into, keyed by the call's function text
+    # (e.g. "parse", "args.file.read", "source.rebuild"); every use is listed under assumptions
+    externals: dict = field(default_factory=dict)
 
     def __post_init__(self):
         if not self.name:
@@ -68,6 +71,15 @@ class Contract:
     @property
     def relpath(self):
         return self.target.split("::")[0]
+
+
+@dataclass
+class External:
+    returns: Any = None
+    params: list = field(default_factory=list)  # positional parameter names (keywords map by name)
+    ensures: list = field(default_factory=list)
+    exsures: dict = field(default_factory=dict)
+    note: str = ""
 
 
 REGISTRY: dict[str, Contract] = {}
